@@ -284,7 +284,7 @@ fn all_malforms_for(rng: &mut Rng, s: u8) -> Vec<Malform> {
         Malform::Crc8Wrong,
         Malform::Crc16Wrong,
         Malform::SubPadBit(s),
-        Malform::SubReservedType(s, *rng.pick(&[2u8, 3, 7, 13, 16, 31])),
+        Malform::SubReservedType(s, *rng.pick(&[2u8, 3, 4, 5, 6, 7, 13, 14, 15, 16, 17, 18, 19, 20, 21, 22, 23, 24, 25, 26, 27, 28, 29, 30, 31])),
         Malform::WastedGeBps(s),
         Malform::Precision15(s),
         Malform::NegativeShift(s),
